@@ -232,7 +232,7 @@ def run_ops(fn, kind, ops):
 
 OPS = st.one_of(
     st.just(['next']), st.just(['next']),
-    st.sampled_from([None, 7, 'v']).map(lambda v: ['send', v]),
+    st.sampled_from([None, 7, 'v', 0, '', False, []]).map(lambda v: ['send', v]),
     st.sampled_from(EXCS).map(lambda e: ['throw', e]),
     st.just(['close']),
 )
@@ -331,7 +331,7 @@ def run_case(case):
             nontriv = True
         if r[0] in ('yield', 'suspended'):
             yielded = True
-    if any(op[0] == 'send' and op[1] is not None for op in case['ops']):
+    if any(op[0] == 'send' and op[1] is not None for op in case['ops']):  # incl. falsy non-None values
         nontriv = True
     return {'fails': fails, 'nontrivial': nontriv, 'evals': 2,
             'classes': ['kind:' + kind, 'ann:' + case['ann'], 'nops:%d' % len(case['ops'])]}
